@@ -37,6 +37,8 @@ type NodeSpec struct {
 	MaxAccepts      int    `json:"max_accepts,omitempty"`
 	MaxLive         int    `json:"max_live,omitempty"`         // at most n simultaneous connections (1 = "a single connection")
 	NoDescendants   bool   `json:"no_descendants,omitempty"`   // forbidden: the forbidden header is the last of the node's chain
+	ChildFirst      bool   `json:"child_first,omitempty"`      // forbidden (with orphan_forbidden): the node first pushes the forbidden header's child alone, then [forbidden, child]
+	ForkBelow       int    `json:"fork_below,omitempty"`       // badcheckpoint: the contradicting branch forks this many blocks BELOW the checkpoint and is pushed unsolicited, one header per message
 	OrphanForbidden bool   `json:"orphan_forbidden,omitempty"` // forbidden: the node follows the honest chain and pushes, unsolicited, a forbidden header whose parent the service does not have
 }
 
@@ -66,6 +68,7 @@ type Scenario struct {
 	SlowConvergeWaitSec int            `json:"slow_converge_wait_sec,omitempty"` // timer-driven convergence (sync-peer rotation): poll this long before the verdict
 	BadFirst            bool           `json:"bad_first,omitempty"`              // misbehaving nodes are the only reachable ones until they have been dealt with
 	ServeQueries        int            `json:"serve_queries,omitempty"`          // C13: after convergence the honest node asks the service this many getheaders questions over the wire
+	DropNode0AfterSync  bool           `json:"drop_node0_after_sync,omitempty"`  // C06: node 0 drops all connections after the initial sync and stays unreachable; node 1 (a laggard that catches up) is the honest announcer from then on
 }
 
 // Result is what the scenario child reports.
@@ -191,10 +194,19 @@ func BuildWorld(s *Scenario, genesis refmodel.Hash) *World {
 			}
 		case "badcheckpoint":
 			at := ns.BadAt
-			chain = append(chain, w.Honest[:at-1]...)
+			below := ns.ForkBelow
+			if below > at-1 {
+				below = at - 1
+			}
+			chain = append(chain, w.Honest[:at-1-below]...)
 			p := genesis
-			if at > 1 {
-				p = w.Honest[at-2].HashOf()
+			if at-1-below > 0 {
+				p = w.Honest[at-2-below].HashOf()
+			}
+			for i := 0; i < below; i++ { // own blocks below the checkpoint height
+				h := w.mine(p, gen.BitsNormal, w.now-30+uint32(i))
+				chain = append(chain, h)
+				p = h.HashOf()
 			}
 			nOwn := 5
 			if ns.ForkLen > 0 {
@@ -327,6 +339,7 @@ type runner struct {
 	res    *Result
 	nodes  []*Node
 	forbid *chainhash.Hash
+	ann    int // index of the node that plays the honest announcer (0 unless node 0 was dropped for good)
 }
 
 func (x *runner) fail(sig, what string) {
@@ -395,7 +408,31 @@ func Execute(s *Scenario, dir string) (res *Result) {
 			if ns.Kind == "forbidden" && ns.OrphanForbidden {
 				m := wire.NewMsgHeaders()
 				m.Headers = append(m.Headers, WireHeader(*x.w.ForbiddenOrphan))
-				n.PushAfterReply, n.PushInfo = m, "orphan-forbidden header pushed unsolicited"
+				if ns.ChildFirst {
+					// first the child alone (parked as an orphan), then the forbidden header followed by that child
+					child := x.w.mine(x.w.ForbiddenOrphan.HashOf(), gen.BitsNormal, x.w.now-2)
+					c1 := wire.NewMsgHeaders()
+					c1.Headers = append(c1.Headers, WireHeader(child))
+					m.Headers = append(m.Headers, WireHeader(child))
+					n.PushAfterReply, n.PushInfo = c1, "child of the orphan-forbidden header pushed alone"
+					n.PushSeq, n.PushSeqInfo = []*wire.MsgHeaders{m}, []string{"orphan-forbidden header pushed unsolicited (followed by its already stored child)"}
+				} else {
+					n.PushAfterReply, n.PushInfo = m, "orphan-forbidden header pushed unsolicited"
+				}
+			}
+			if ns.Kind == "badcheckpoint" && ns.ForkBelow > 0 {
+				// the contradicting branch is announced header by header (each message holds one header)
+				start := ns.BadAt - 1 - ns.ForkBelow
+				if start < 0 {
+					start = 0
+				}
+				ch := x.w.Chains[i]
+				for h := start; h < len(ch); h++ {
+					m := wire.NewMsgHeaders()
+					m.Headers = append(m.Headers, WireHeader(ch[h]))
+					n.PushSeq = append(n.PushSeq, m)
+					n.PushSeqInfo = append(n.PushSeqInfo, fmt.Sprintf("1 headers %d..%d", h+1, h+1))
+				}
 			}
 		})
 		x.nodes = append(x.nodes, n)
@@ -553,6 +590,19 @@ func Execute(s *Scenario, dir string) (res *Result) {
 			return
 		}
 	}
+	if s.DropNode0AfterSync && len(x.nodes) > 1 {
+		// the peer the service synced from goes away for good; a peer that lagged behind catches up and carries on
+		x.rig.Refuse(x.nodes[0], true)
+		x.nodes[0].StopAccepting()
+		for _, c := range x.nodes[0].Open() {
+			c.Close("scripted: node 0 goes away after the initial sync")
+		}
+		x.ann = 1
+		x.count("node0_dropped_after_sync", 1)
+		if !x.quiesce("after node 0 went away") {
+			return
+		}
+	}
 	if s.WaitReconnect {
 		for i, ns := range s.Nodes {
 			if ns.DisconnectAtMsg > 0 {
@@ -574,10 +624,10 @@ func Execute(s *Scenario, dir string) (res *Result) {
 	for ai, a := range s.Announce {
 		x.w.ExtendHonest(a.Blocks, genesis)
 		who := a.Nodes
-		if len(who) == 0 {
-			who = []int{0}
+		if len(who) == 0 || x.ann != 0 {
+			who = []int{x.ann}
 		}
-		x.nodes[0].SetChain(x.w.Honest)
+		x.nodes[x.ann].SetChain(x.w.Honest)
 		for _, ni := range who {
 			if ni != 0 && (s.Nodes[ni].Kind == "laggard" || s.Nodes[ni].Kind == "honest") {
 				x.nodes[ni].SetChain(x.w.Honest) // the laggard caught up and announces the same block
@@ -605,9 +655,10 @@ func Execute(s *Scenario, dir string) (res *Result) {
 	}
 	// final honest announcement round (conformant)
 	if s.Nodes[0].Kind == "honest" {
-		if len(x.nodes[0].Live()) == 0 {
+		an := x.nodes[x.ann]
+		if len(an.Live()) == 0 {
 			// the honest peer stays reachable; the service re-dials on its own timers
-			if !x.waitFor(func() bool { return len(x.nodes[0].Live()) > 0 }, 75*time.Second) {
+			if !x.waitFor(func() bool { return len(an.Live()) > 0 }, 75*time.Second) {
 				res.Verdict, res.What = "inconclusive", "the service has no connection to the honest node and did not re-dial it within 75 s"
 				res.Events = x.rig.Log.Tail(40)
 				return
@@ -618,8 +669,8 @@ func Execute(s *Scenario, dir string) (res *Result) {
 			}
 		}
 		x.w.ExtendHonest(1, genesis)
-		x.nodes[0].SetChain(x.w.Honest)
-		for _, c := range x.nodes[0].Live() {
+		an.SetChain(x.w.Honest)
+		for _, c := range an.Live() {
 			if c.Announce() == nil {
 				x.count("final_round_announcements", 1)
 				if c.WantsHeaders() {
@@ -645,12 +696,12 @@ func Execute(s *Scenario, dir string) (res *Result) {
 			if x.converged() {
 				break
 			}
-			if len(x.nodes[0].Live()) == 0 && !x.waitFor(func() bool { return len(x.nodes[0].Live()) > 0 }, 30*time.Second) {
+			if len(an.Live()) == 0 && !x.waitFor(func() bool { return len(an.Live()) > 0 }, 30*time.Second) {
 				break
 			}
 			x.w.ExtendHonest(1, genesis)
-			x.nodes[0].SetChain(x.w.Honest)
-			for _, c := range x.nodes[0].Live() {
+			an.SetChain(x.w.Honest)
+			for _, c := range an.Live() {
 				_ = c.Announce()
 			}
 			if !x.quiesce("extra convergence round") {
